@@ -1335,8 +1335,15 @@ func decodeRuneSym(fr *frame, s value, off int) (value, int) {
 		if c < utf8.RuneSelf {
 			return rune(c), 1
 		}
-		// multi-byte sequence: needs concrete continuation bytes
-		end := off + 4
+		// multi-byte sequence: needs concrete continuation bytes (only as many as the lead byte announces)
+		need := 2
+		switch {
+		case c >= 0xf0:
+			need = 4
+		case c >= 0xe0:
+			need = 3
+		}
+		end := off + need
 		if end > len(b) {
 			end = len(b)
 		}
